@@ -3,7 +3,7 @@
 # (never touches /repo itself; the worktree and its build output are removed afterwards)
 set -u
 patch=$1; cid=$2; tier=${3:-quick}
-tag=$(basename $(dirname $patch))-$cid
+tag=$(basename $(dirname $patch))-$(echo -n $patch | sha1sum | cut -c1-6)-$cid      # unique per patch file: concurrent runs never share a worktree
 wt=/tmp/mt-$tag
 git -C /repo worktree remove --force $wt >/dev/null 2>&1; rm -rf $wt
 git -C /repo worktree add -q --detach $wt HEAD || exit 9
